@@ -53,3 +53,34 @@ let cmd_lsim toks =
      out "VOL"; out (hx st.ls_V)
    | OutOfFuel -> out "OUTOFFUEL" | Fault w -> out ("FAULT" ^ string_of_int (int_of_nat w)));
   Buffer.contents buf
+
+(* lineage: the extracted worklist (SimulateCellLineage) on a recorded stream.
+   lineage SIM <vrules> <drules> <krules> <vevents> <devents> <kevents> <splitters: one per division rule, then per division event>
+           <times> <ncells> (<V> <t0>)* <stream> *)
+let pop_splitter r =
+  let (vm, r) = pop_nat r in let (pf, r) = pop_list pop_nat r in let (bn, r) = pop_list pop_nat r in let (noise, r) = pop_fl r in
+  ({ sp_vmode = vm; sp_perfect = pf; sp_binomial = bn; sp_noise = noise }, r)
+
+let cmd_lineage toks =
+  let (s, r) = pop_sim toks in
+  let (vr, r) = pop_list pop_vrule r in let (dr, r) = pop_list pop_drule r in let (kr, r) = pop_list pop_krule r in
+  let (ve, r) = pop_list pop_vevent r in let (de, r) = pop_list pop_prop r in let (ke, r) = pop_list pop_prop r in
+  let (sps, r) = pop_list pop_splitter r in
+  let (ts, r) = pop_flist r in
+  let (cells, r) = pop_list (fun r -> let (v, r) = pop_fl r in let (t0, r) = pop_fl r in
+                                      ({ cs_time = t0; cs_t0 = t0; cs_V = v; cs_V0 = v; cs_x = s.sm_x0; cs_divided = z_of_int (-1); cs_dead = z_of_int (-1) }, r)) r in
+  let (u, _) = pop_stream r in
+  let l = { ln_sim = s; ln_vrules = vr; ln_drules = dr; ln_krules = kr; ln_vevents = ve; ln_devents = de; ln_kevents = ke } in
+  let buf = Buffer.create 4096 in
+  let out x = Buffer.add_string buf x; Buffer.add_char buf ' ' in
+  (match simulate_lineage fl 1E-9 10e-8 1E-12 (nat_of_int 100000) fuel l sps ts cells u O with
+   | Done w ->
+     List.iter (fun z ->
+       out "S"; out (match z.sz_parent with None -> "-1" | Some p -> string_of_int (int_of_nat p));
+       (match z.sz_daughters with None -> out "-1"; out "-1" | Some (a, b) -> out (string_of_int (int_of_nat a)); out (string_of_int (int_of_nat b)));
+       out "T"; out (string_of_int (List.length z.sz_times)); List.iter (fun x -> out (hx x)) z.sz_times;
+       out "N"; out (string_of_int (List.length z.sz_rows)); show_rows buf z.sz_rows;
+       out "V"; List.iter (fun x -> out (hx x)) z.sz_vols) w.w_lineage;
+     out "POS"; out (string_of_int (int_of_nat w.w_pos))
+   | OutOfFuel -> out "OUTOFFUEL" | Fault k -> out ("FAULT" ^ string_of_int (int_of_nat k)));
+  Buffer.contents buf
